@@ -798,6 +798,9 @@ func c16Interp(t *testing.T, c c16Case) (v kit.Verdict) {
 			c16Settle(c, s)
 			s.mu.Lock()
 			c16Check(c, s, res)
+			if os.Getenv("VERIF_C16_TRACE") != "" {
+				fmt.Fprintf(os.Stderr, "C16 trace %+v%s\n", c, c16History(s))
+			}
 			s.mu.Unlock()
 		})
 		returned = true
